@@ -24,7 +24,7 @@ func main() {
 	*logging.Logger() = zerolog.Nop()
 	levels := map[string]string{"C12": "exploration", "C17": "exploration", "C19": "exploration"}
 	o, run := cli.Parse(levels)
-	monitors[o.Prop](o, run)
+	cli.Guard("monitor body", func() { monitors[o.Prop](o, run) })
 	// race reports of this very process (C12 thorough is built with -race)
 	if dir := os.Getenv("VERIF_RACE_LOG_DIR"); dir != "" {
 		n := 0
